@@ -653,6 +653,13 @@ class SyncObj(object):
     def __applyLogEntries(self):
         needSendAppendEntries = False
 
+        if self.__enabledCodeVersion > self.__selfCodeVersion:
+            # e.g. state restored from a dump that was made after a switch to a version this code lacks
+            logger.error(
+                'enabled code version is not supported (self version: %d, enabled version: %d)' %
+                (self.__selfCodeVersion, self.__enabledCodeVersion))
+            return needSendAppendEntries
+
         if self.__raftCommitIndex > self.__raftLastApplied:
             count = self.__raftCommitIndex - self.__raftLastApplied
             entries = self.__getEntries(self.__raftLastApplied + 1, count)
